@@ -79,6 +79,40 @@ def main():
             agree.append((t1, t2, "return", "fn callee() -> %s\n{\n%s\treturn: a\n}\nfn main()\n{\n}\n" % (t2, v)))
             agree.append((t1, t2, "pointer-init", "fn main()\n{\n%s\tvar p: &%s = &a;\n}\n" % (v, t2)))
             agree.append((t1, t2, "pointer-argument", "fn callee(p: &%s)\n{\n}\nfn main()\n{\n%s\tcallee(&a);\n}\n" % (t2, v)))
+            agree.append((t1, t2, "struct-literal-member", "struct S\n{\n\tm: %s,\n}\nfn main()\n{\n%s\tvar s = S { m: a };\n}\n" % (t2, v)))
+            agree.append((t1, t2, "struct-literal-member-literal", "struct S\n{\n\tk: u8,\n\tm: %s,\n}\nfn main()\n{\n\tvar s = S { k: 1u8, m: %s };\n}\n" % (t2, lit(t1))))
+            agree.append((t1, t2, "struct-literal-pointer-member", "struct S\n{\n\tm: &%s,\n}\nfn main()\n{\n%s\tvar s = S { m: &a };\n}\n" % (t2, v)))
+            agree.append((t1, t2, "member-assignment", "struct S\n{\n\tm: %s,\n}\nfn main()\n{\n%s\tvar s = S { m: %s };\n\ts.m = a;\n}\n" % (t2, v, lit(t2))))
+    # the length of an array is part of its type: array literals, annotations and pointers to arrays agree only at equal
+    # shapes; a nested literal must not be ragged
+    def arr_lit(shape, elem="i32"):
+        if not shape:
+            return "1" + elem
+        return "[" + ", ".join(arr_lit(shape[1:], elem) for _ in range(shape[0])) + "]"
+
+    def arr_ty(shape, elem="i32"):
+        return "".join("[%d]" % k for k in shape) + elem
+
+    SHAPES = [(2,), (3,), (1,), (2, 2), (2, 3), (3, 2), (2, 2, 2), (2, 3, 2)]
+    for s1 in SHAPES:
+        for s2 in SHAPES:
+            for elem in ("i32", "u8"):
+                t1, t2 = arr_ty(s1, elem), arr_ty(s2, elem)
+                v = "\tvar a: %s = %s;\n" % (t1, arr_lit(s1, elem))
+                agree.append((t1, t2, "array-literal-init", "fn main()\n{\n\tvar b: %s = %s;\n}\n" % (t2, arr_lit(s1, elem))))
+                agree.append((t1, t2, "array-pointer-init", "fn main()\n{\n%s\tvar p: &%s = &a;\n}\n" % (v, t2)))
+                agree.append((t1, t2, "array-struct-literal-member", "struct S\n{\n\tm: %s,\n}\nfn main()\n{\n\tvar s = S { m: %s };\n}\n" % (t2, arr_lit(s1, elem))))
+                agree.append((t1, t2, "array-pointer-argument", "fn callee(p: &%s)\n{\n}\nfn main()\n{\n%s\tcallee(&a);\n}\n" % (t2, v)))
+    for inner in ((3, 2), (2, 3), (1, 2), (2, 2, 3), (3, 3, 2)):
+        rows = ", ".join(arr_lit((k,)) for k in inner)
+        ragged = "ragged:" + "/".join(map(str, inner))
+        agree.append((ragged, "inferred", "ragged-literal", "fn main()\n{\n\tvar g = [%s];\n}\n" % rows))
+        agree.append((ragged, "[%d][%d]i32" % (len(inner), inner[0]), "ragged-literal-annotated",
+                      "fn main()\n{\n\tvar g: [%d][%d]i32 = [%s];\n}\n" % (len(inner), inner[0], rows)))
+        strs = ", ".join('"' + "abcdefg"[:k] + '"' for k in inner)
+        agree.append((ragged, "inferred", "ragged-string-literal", "fn main()\n{\n\tvar g = [%s];\n}\n" % strs))
+        agree.append((ragged, "[%d][%d]char8" % (len(inner), inner[0]), "ragged-string-literal-annotated",
+                      "fn main()\n{\n\tvar g: [%d][%d]char8 = [%s];\n}\n" % (len(inner), inner[0], strs)))
     gh = run_harness(["alpha\tcheck\tm.pn\t" + esc(src) for _, _, _, src in agree])
     agree_bad = []
     for (t1, t2, pos, src), ha in zip(agree, gh):
@@ -86,6 +120,10 @@ def main():
         codes = codes_of(hd) if hh == "err" else []
         same = t1 == t2
         ok = (hh == "ok") if same else (hh == "err" and any((500 <= c < 600) or c in (330, 331, 332, 333, 334, 335, 352, 354) for c in codes))
+        if pos.startswith("array") or pos.startswith("ragged"):
+            # rejected is rejected: an array literal with elements of different types fails with an empty error list,
+            # which is C02's known finding, not an accepted ill-typed program
+            ok = (hh == "ok") if same else (hh == "err")
         dist["agree:%s:%s" % (pos, "same" if same else "different")] += 1
         if not ok:
             agree_bad.append((t1, t2, pos, src, ha))
